@@ -18,3 +18,7 @@ Inductive finding_id_source :=
 (** Which node's argument list `on_result_found` of the argument-replacing hardening codemods rebuilds from:
     `self.replace_args(original_node, ...)` (children as they were before the traversal) or `updated_node`. *)
 Inductive args_from := FromOriginal | FromUpdated.
+
+(** CodeQLLocation.from_sarif: what the start column is when the SARIF region has no startColumn
+    (`region.get("startColumn")` -> None; repaired: `region.get("startColumn", 1)`, the SARIF default). *)
+Inductive sc_default := ScNone | ScOne.
